@@ -3,6 +3,8 @@ mod c03;
 mod c03g;
 mod hs;
 mod c02;
+mod imw;
+mod c06;
 mod life;
 mod c20rv;
 mod c04;
@@ -30,6 +32,7 @@ fn main() {
             "c02" => c02::run(&a[2..]),
             "c20rv" => c20rv::run(&a[2..]),
             "life" => life::run(&a[2..]),
+            "c06" => c06::run(&a[2..]),
             "c03" => c03::run(&a[2..]),
             "c04e2e" => c03::run_ctr(&a[2..]),
             "c04" => c04::run(&a[2..]),
